@@ -294,7 +294,7 @@ ALL_INVARIANTS = ["NoDupQoS2", "NoLoss", "DupFlag", "NoPubAfterRel", "NoTxAfterD
 
 
 def mc_retry(workload, faults=2, deliver_on_rel=False, sessions=(True,), always_resub=False, resp_timeout=False,
-             bugs=None, invariants=None, props=(), workers=None, timeout=600, heap="12g", handlers=(), inbound=0):
+             bugs=None, invariants=None, props=(), workers=None, timeout=600, heap="12g", handlers=(), inbound=0, direct_qos0=False):
     """Exhaustively check one MqttRetry instance.  Returns the TLCResult."""
     consts = dict(BUGS_OFF)
     consts.update(bugs or {})
@@ -306,7 +306,7 @@ def mc_retry(workload, faults=2, deliver_on_rel=False, sessions=(True,), always_
         tla(model_workload(workload)), tla(set(sessions)), tla(list(handlers)))
     cfg = ["SPECIFICATION Spec", "CONSTANTS", "  Workload <- WL", "  MaxFaults = %d" % faults, "  MaxGen = %d" % (faults + 1),
            "  DeliverOnRel = %s" % tla(deliver_on_rel), "  SessionChoices <- SESS", "  AlwaysResub = %s" % tla(always_resub),
-           "  RespTimeout = %s" % tla(resp_timeout), "  Handlers <- HS", "  MaxInbound = %d" % inbound]
+           "  RespTimeout = %s" % tla(resp_timeout), "  Handlers <- HS", "  MaxInbound = %d" % inbound, "  DirectQoS0 = %s" % tla(direct_qos0)]
     cfg += ["  %s = %s" % (k, tla(v)) for k, v in consts.items()]
     cfg += ["CHECK_DEADLOCK FALSE"]
     if inv:
@@ -351,11 +351,9 @@ def l2_eligible(sc, res):
     if "evs" not in res or res.get("info", {}).get("unreached"):
         return False
     o = sc.get("opts", {})
-    if o.get("pingMs") or o.get("hookEvents") or o.get("directQoS0") or o.get("cleanSession"):
+    if o.get("pingMs") or o.get("hookEvents") or o.get("cleanSession") or o.get("grantCap") is not None or o.get("promptAcks"):
         return False
-    if sc.get("plan", {}).get("inbound"):
-        return False
-    if any(r["k"] not in ("pub", "sub", "unsub", "peerclose", "sleep", "release") for r in sc["reqs"]):
+    if any(r["k"] not in ("pub", "sub", "unsub", "peerclose", "sleep", "release", "handle") for r in sc["reqs"]):
         return False
     return True
 
@@ -403,22 +401,26 @@ def l2_validate(scenarios, results, max_groups=None, timeout=600):
         if not mwl:
             continue
         o = sc.get("opts", {})
-        key = (json.dumps(mwl, sort_keys=True), bool(o.get("deliverOnRel")), bool(o.get("alwaysResub")), bool(o.get("respTimeoutMs")))
+        hs = [r["h"] for r in sc["reqs"] if r["k"] == "handle"]
+        ninb = len(sc.get("plan", {}).get("inbound") or [])
+        key = (json.dumps(mwl, sort_keys=True), bool(o.get("deliverOnRel")), bool(o.get("alwaysResub")), bool(o.get("respTimeoutMs")), bool(o.get("directQoS0")),
+               json.dumps(hs), ninb)
         groups.setdefault(key, []).append(sc["id"])
     keys = sorted(groups)
-    if max_groups:
-        keys = keys[:max_groups]
+    if max_groups and len(keys) > max_groups:
+        step = len(keys) / float(max_groups)
+        keys = [keys[int(i * step)] for i in range(max_groups)]      # evenly spread over workloads and options
     drift, validated, states = [], 0, 0
 
     def one(key):
-        mwl, dor, ar, rt = key
+        mwl, dor, ar, rt, dq, hs, ninb = key
         ids = groups[key]
         text = "\n".join(json.dumps({"id": i, "evs": l2_trace(results[i])}, sort_keys=True) for i in ids) + "\n"
-        mc = "---- MODULE MCTrace ----\nEXTENDS TraceRetry\nWL == %s\nHS == << >>\n====\n" % tla(json.loads(mwl))
+        mc = "---- MODULE MCTrace ----\nEXTENDS TraceRetry\nWL == %s\nHS == %s\n====\n" % (tla(json.loads(mwl)), tla(json.loads(hs)))
         cfg = ["SPECIFICATION TSpec", "CONSTANTS", "  Workload <- WL", "  MaxFaults = 8", "  MaxGen = 9", "  DeliverOnRel = %s" % tla(dor),
                "  SessionChoices = {TRUE, FALSE}", "  AlwaysResub = %s" % tla(ar), "  RespTimeout = %s" % tla(rt)]
         cfg += ["  %s = FALSE" % b for b in BUGS_OFF]
-        cfg += ["  Handlers <- HS", "  MaxInbound = 0"]
+        cfg += ["  Handlers <- HS", "  MaxInbound = %d" % ninb, "  DirectQoS0 = %s" % tla(dq)]
         cfg += ["CHECK_DEADLOCK FALSE", "CONSTRAINT HW", "POSTCONDITION Report"]
         r = vlib.tlc("MCTrace", cfg="MCTrace.cfg", files={"MCTrace.tla": mc, "MCTrace.cfg": "\n".join(cfg) + "\n", "l2traces.ndjson": text},
                      workers=1, timeout=timeout, deque=True, heap="3g")
